@@ -39,7 +39,10 @@ def ctrlExact (s : SectionLayout) : Bool :=
 def noLenAligned (s : SectionLayout) : Bool :=
   s.hasParam "section_length" || (s.params.map (·.nbits)).sum % 16 == 0
 
-def layoutOK (s : SectionLayout) : Bool := descAligned s && ctrlExact s && noLenAligned s
+/-- a zero-width parameter has no expected value -/
+def noExpectZero (s : SectionLayout) : Bool := s.params.all fun p => p.nbits != 0 || p.expected.isNone
+
+def layoutOK (s : SectionLayout) : Bool := descAligned s && ctrlExact s && noLenAligned s && noExpectZero s
 
 def LayoutsOK (L : Layouts) : Bool := L.all fun e => layoutOK e.layout
 
@@ -589,7 +592,7 @@ theorem decValue_zero {α : Type} (dc : DataCoder α) (a : α) {p : Param} {v : 
     (hal : p.ty = .descriptors → st.used % 8 = 0)
     (hdc : p.ty = .templateData → ∀ x, dc.dec st.reg (payload ++ x) = .ok (a, x)) :
     ∃ (v' : PVal) (c : Bits) (z' : Nat) (dat : Option α), z' ≤ z ∧ c.length = y.length + (z - z') ∧
-      PRel p.name p.nbits v v' ∧ (∀ b, v' ≠ .int b) ∧ dat = (if p.ty = .templateData then some a else none) ∧
+      PRel p.name p.nbits v v' ∧ (p.ty ≠ .uint ∧ p.ty ≠ .int ∧ p.ty ≠ .bool) ∧ dat = (if p.ty = .templateData then some a else none) ∧
       ∀ suf, y ++ (zeros z ++ suf) = c ++ (zeros z' ++ suf) ∧
         decValue dc st p (c ++ (zeros z' ++ suf)) = .ok ((v', dat), zeros z' ++ suf) := by
   unfold encParam at h
@@ -602,7 +605,7 @@ theorem decValue_zero {α : Type} (dc : DataCoder α) (a : α) {p : Param} {v : 
     have hu := hal hty
     have hcount : (H - st.used / 8) / 2 = ids.length + z / 16 := by omega
     refine ⟨.descs (ids ++ List.replicate (z / 16) 0), y ++ zeros (16 * (z / 16)), z - 16 * (z / 16), none,
-      by omega, by simp only [List.length_append, zeros_length]; omega, Or.inr ⟨z / 16, rfl⟩, fun b hb => (by cases hb),
+      by omega, by simp only [List.length_append, zeros_length]; omega, Or.inr ⟨z / 16, rfl⟩, (by simp [hty]),
       (by simp [hty]), fun suf => ⟨?_, ?_⟩⟩
     · rw [zeros_split (16 * (z / 16)) z (by omega)]; simp only [List.append_assoc]
     · simp only [decValue, hty, R.bind, hsl, R.lift, R.pure, R.map, hcount, List.append_assoc,
@@ -611,7 +614,7 @@ theorem decValue_zero {α : Type} (dc : DataCoder α) (a : α) {p : Param} {v : 
     rename_i hty
     have hy : payload = y := List.append_cancel_left (Except.ok.inj h)
     subst hy
-    refine ⟨.data, payload, z, some a, Nat.le_refl _, by omega, Or.inl rfl, fun b hb => (by cases hb), (by simp [hty]),
+    refine ⟨.data, payload, z, some a, Nat.le_refl _, by omega, Or.inl rfl, (by simp [hty]), (by simp [hty]),
       fun suf => ⟨rfl, ?_⟩⟩
     simp only [decValue, hty, R.map, R.bind, hdc hty, R.pure]
   · rename_i i hty
@@ -633,7 +636,7 @@ theorem decValue_zero {α : Type} (dc : DataCoder α) (a : α) {p : Param} {v : 
       fun suf => readBits_append_of_length _ _ _ (by simp only [List.length_append, zeros_length]; omega)
     refine ⟨.bin (bs ++ zeros z), bs ++ zeros z, 0, none, Nat.zero_le _,
       by simp only [List.length_append, zeros_length]; omega, Or.inr ⟨z, rfl, fun h0 => absurd hn h0⟩,
-      fun b hb => (by cases hb), (by simp [hty]), fun suf => ⟨by simp [zeros], ?_⟩⟩
+      (by simp [hty]), (by simp [hty]), fun suf => ⟨by simp [zeros], ?_⟩⟩
     have hz0 : zeros 0 = [] := rfl
     simp only [decValue, hty, hn, if_true, reduceCtorEq, if_false, R.bind, hsl, R.lift, R.pure, hlt, readTyped, R.map,
       readBin, hz0, hr suf]
@@ -651,11 +654,199 @@ theorem decValue_zero {α : Type} (dc : DataCoder α) (a : α) {p : Param} {v : 
       fun suf => readBits_append_of_length _ _ _ (zeros_length _)
     refine ⟨.bytes (bitsToBytes (zeros (8 * (z / 8)))), zeros (8 * (z / 8)), z - 8 * (z / 8), none, by omega,
       by simp only [zeros_length, List.length_nil]; omega, Or.inr fun h0 => absurd hn h0,
-      fun b hb => (by cases hb), (by simp [hty]), fun suf => ⟨?_, ?_⟩⟩
+      (by simp [hty]), (by simp [hty]), fun suf => ⟨?_, ?_⟩⟩
     · rw [zeros_split (8 * (z / 8)) z (by omega)]; simp only [List.nil_append, List.append_assoc]
     · simp only [decValue, hty, hn, if_true, reduceCtorEq, if_false, R.bind, hsl, R.lift, R.pure, hlt, readTyped, R.map,
         readBytes, hn8, hr suf]
   · cases h
+
+/-! ## the parameters of a section after its length field -/
+
+/-- a zero width only for the last parameter (recursive form of `SectionLayout.zeroLast`) -/
+def zl : List Param → Bool
+  | [] => true
+  | [_] => true
+  | p :: q :: r => p.nbits != 0 && zl (q :: r)
+
+theorem zl_tail {p : Param} {ps : List Param} (h : zl (p :: ps) = true) : zl ps = true := by
+  cases ps with
+  | nil => rfl
+  | cons q r => simp only [zl, Bool.and_eq_true] at h; exact h.2
+
+theorem zl_snoc (init : List Param) (last : Param) (h : ∀ p ∈ init, p.nbits ≠ 0) : zl (init ++ [last]) = true := by
+  induction init with
+  | nil => rfl
+  | cons p ps ih =>
+    have ih' := ih (fun q hq => h q (List.mem_cons_of_mem _ hq))
+    cases hps : ps ++ [last] with
+    | nil => simp at hps
+    | cons q r =>
+      rw [hps] at ih'
+      simp only [List.cons_append, hps, zl, Bool.and_eq_true, bne_iff_ne, ne_eq]
+      exact ⟨h p List.mem_cons_self, ih'⟩
+
+theorem zl_of_zeroLast {s : SectionLayout} (h : s.zeroLast = true) : zl s.params = true := by
+  unfold SectionLayout.zeroLast at h
+  split at h
+  · cases h
+  rename_i last ir hrev
+  have hp : s.params = ir.reverse ++ [last] := by
+    have := congrArg List.reverse hrev
+    simpa using this
+  rw [hp]
+  apply zl_snoc
+  intro p hp'
+  have := List.all_eq_true.mp h p (List.mem_reverse.mp hp')
+  simpa using this
+
+theorem lookup_append_some {β : Type} {k : String} {acc more : List (String × β)} {v : β}
+    (hv : acc.lookup k = some v) : (acc ++ more).lookup k = some v := by
+  induction acc with
+  | nil => simp [List.lookup] at hv
+  | cons e acc ih =>
+    obtain ⟨k', x⟩ := e
+    simp only [List.lookup, List.cons_append] at hv ⊢
+    split
+    · rename_i heq; rw [heq] at hv; exact hv
+    · rename_i hne; rw [hne] at hv
+      exact ih hv
+
+theorem secLen_append {acc more : List (String × PVal)} {H : Nat} (h : secLen acc = .ok H) :
+    secLen (acc ++ more) = .ok H := by
+  obtain ⟨v, hv, rfl⟩ := secLen_has h
+  unfold secLen; rw [lookup_append_some hv]
+
+/-- per-parameter side conditions -/
+def PGood (p : Param) : Prop :=
+  p.widthOK = true ∧
+  (p.asProperty = true → isCtrl p.name = true → (p.ty = .uint ∨ p.ty = .int ∨ p.ty = .bool)) ∧
+  (p.nbits = 0 → p.expected = none)
+
+theorem canonV_exact {w : Bits} {p : Param} {v : PVal} {payload w1 : Bits} (h : encParam w p v payload = .ok w1)
+    (hty : p.ty = .uint ∨ p.ty = .int ∨ p.ty = .bool) : canonV p v = v := by
+  cases v <;> first | rfl | skip
+  rename_i b
+  rcases hty with hty | hty | hty <;> simp [encParam, hty] at h
+
+def hasData (ps : List Param) : Bool := ps.any (·.ty == .templateData)
+def beforeData (ps : List Param) : List Param := ps.takeWhile (·.ty != .templateData)
+
+theorem decParams_tail {α : Type} (dc : DataCoder α) (a : α) (payload : Bits) (start H : Nat) :
+    ∀ (ps : List Param) (vs : List PVal) (w y : Bits) (z off : Nat) (st : DecSt α) (rE : Registry),
+      (∀ p ∈ ps, PGood p) → zl ps = true → descAlignedGo ps st.used = true → valsOK ps vs = true →
+      encParams payload ps vs w = .ok (w ++ y) →
+      secLen st.acc = .ok H → 8 * H = st.used + y.length + z → RegRel rE st.reg →
+      (hasData ps = true → ∀ rD, RegRel (register rE start off (beforeData ps) vs) rD →
+        ∀ x, dc.dec rD (payload ++ x) = .ok (a, x)) →
+      ∃ (vsD : List PVal) (z' : Nat) (dat : Option α), z' ≤ z ∧ RelVals ps vs vsD ∧
+        dat = (if hasData ps = true then some a else none) ∧
+        ∀ suf, decParams dc start ps off st (y ++ (zeros z ++ suf)) = .ok
+          ({ reg := register st.reg start off ps vsD, acc := st.acc ++ decAcc ps vsD,
+             used := st.used + y.length + (z - z'),
+             data := (match dat with | some b => some b | none => st.data) }, zeros z' ++ suf) := by
+  intro ps
+  induction ps with
+  | nil =>
+    intro vs w y z off st rE _ _ _ _ h _ _ _ _
+    simp only [encParams] at h
+    have hy : [] = y := List.append_cancel_left (as := w) (by simpa using Except.ok.inj h)
+    subst hy
+    refine ⟨[], z, none, Nat.le_refl _, by cases vs <;> trivial, by simp [hasData], fun suf => ?_⟩
+    simp [decParams, R.pure, register, decAcc]
+  | cons p ps ih =>
+    intro vs w y z off st rE hgood hzl hal hvs h hsl hH hreg hdc
+    cases vs with
+    | nil => simp only [encParams] at h; cases h
+    | cons v vs =>
+      simp only [encParams] at h
+      split at h
+      · cases h
+      rename_i wa h1
+      obtain ⟨x1, e1, _⟩ := encParam_sh h1
+      subst e1
+      obtain ⟨y', e2, _⟩ := encParams_sh h
+      have hy : y = x1 ++ y' := by
+        rw [List.append_assoc] at e2
+        exact List.append_cancel_left e2
+      subst hy
+      simp only [valsOK, Bool.and_eq_true] at hvs
+      obtain ⟨hw, hctrl, hexp⟩ := hgood p List.mem_cons_self
+      simp only [descAlignedGo, Bool.and_eq_true, Bool.or_eq_true, bne_iff_ne, ne_eq, beq_iff_eq] at hal
+      by_cases hn : p.nbits = 0
+      · -- the zero-width parameter: the last one
+        have hps : ps = [] := by
+          cases ps with
+          | nil => rfl
+          | cons q r => simp [zl, hn] at hzl
+        subst hps
+        simp only [encParams] at h
+        have hy0 : y' = [] := by
+          have := List.append_cancel_left (as := w ++ x1) (bs := []) (cs := y') (by simpa using (Except.ok.inj h))
+          exact this.symm
+        subst hy0
+        simp only [List.append_nil] at hH ⊢
+        have hdc' : p.ty = .templateData → ∀ x, dc.dec st.reg (payload ++ x) = .ok (a, x) := by
+          intro hty
+          apply hdc (by simp [hasData, hty])
+          simp only [beforeData, List.takeWhile, hty, bne_self_eq_false, register]
+          exact hreg
+        obtain ⟨v', c, z', dat, hz', hcl, hrel, hnty, hdat, hrun⟩ :=
+          decValue_zero dc a hw hn h1 st H z hsl hH (fun hty => by rcases hal.1 with h0 | h0; exact absurd hty h0; exact h0) hdc'
+        refine ⟨[v'], z', dat, hz', ⟨hrel, fun hp hc => ?_, trivial⟩, by simp [hdat, hasData], fun suf => ?_⟩
+        · rcases hctrl hp hc with h0 | h0 | h0
+          · exact absurd h0 hnty.1
+          · exact absurd h0 hnty.2.1
+          · exact absurd h0 hnty.2.2
+        · obtain ⟨heq, hd⟩ := hrun suf
+          rw [heq]
+          have hc := counted_append hd
+          have hce : checkExpected p v' = .ok () := by simp [checkExpected, hexp hn]
+          simp only [decParams, R.bind, hc, hce, R.lift, R.pure, register, decAcc, List.zipWith_cons_cons,
+            List.zipWith_nil_left, hcl]
+          cases dat <;> simp only [Nat.add_assoc]
+      · -- a fixed-width parameter
+        have hnty : (p.ty != .templateData) = true := by
+          simp only [bne_iff_ne, ne_eq]
+          intro hty
+          simp [Param.widthOK, hty] at hw
+          exact hn hw
+        obtain ⟨hfix, hl1⟩ := decValue_fixed dc (st := st) (suf := []) hw hn hvs.1 h1
+        have hhd : hasData (p :: ps) = hasData ps := by
+          have hf : (p.ty == PType.templateData) = false := by
+            simp only [bne_iff_ne, ne_eq] at hnty; simpa using hnty
+          simp only [hasData, List.any_cons, hf, Bool.false_or]
+        have hcan : p.asProperty = true → isCtrl p.name = true → canonV p v = v :=
+          fun hp hc => canonV_exact h1 (hctrl hp hc)
+        let rE1 : Registry := if p.asProperty then (p.name, { val := v, nbits := p.nbits, pos := start + off }) :: rE else rE
+        let st1 : DecSt α :=
+          { reg := if p.asProperty then (p.name, { val := canonV p v, nbits := p.nbits, pos := start + off }) :: st.reg
+                   else st.reg,
+            acc := st.acc ++ [(p.name, canonV p v)], used := st.used + x1.length, data := st.data }
+        have hreg1 : RegRel rE1 st1.reg := by
+          show RegRel (if p.asProperty then _ else _) (if p.asProperty then _ else _)
+          by_cases hp : p.asProperty = true
+          · simp only [hp, if_true]
+            exact ⟨⟨rfl, rfl, rfl, PRel_canon p v, fun hc => hcan hp hc⟩, hreg⟩
+          · simp only [hp]; exact hreg
+        have hH1 : 8 * H = st1.used + y'.length + z := by
+          show 8 * H = st.used + x1.length + y'.length + z
+          simp only [List.length_append] at hH; omega
+        obtain ⟨vsD, z', dat, hz', hrel, hdat, hrun⟩ := ih vs (w ++ x1) y' z (off + p.nbits) st1 rE1
+          (fun q hq => hgood q (List.mem_cons_of_mem _ hq)) (zl_tail hzl)
+          (by show descAlignedGo ps (st.used + x1.length) = true; rw [hl1]; exact hal.2) hvs.2
+          (by rw [h, List.append_assoc]) (secLen_append hsl) hH1 hreg1
+          (fun hd rD hr => hdc (by rw [hhd]; exact hd) rD
+            (by simpa [beforeData, List.takeWhile, hnty, register] using hr))
+        refine ⟨canonV p v :: vsD, z', dat, hz', ⟨PRel_canon p v, hcan, hrel⟩,
+          by rw [hhd]; exact hdat, fun suf => ?_⟩
+        have hfix' := (decValue_fixed dc (st := st) (suf := y' ++ (zeros z ++ suf)) hw hn hvs.1 h1).1
+        have hc := counted_append hfix'
+        simp only [List.append_assoc, decParams, R.bind, hc, checkExpected_ok hvs.1, R.lift, R.pure]
+        have := hrun suf
+        simp only [st1] at this
+        rw [this]
+        simp only [register, decAcc, List.zipWith_cons_cons, List.append_assoc, List.cons_append, List.nil_append,
+          List.length_append, Nat.add_assoc]
 
 end RT
 end Bufr
